@@ -64,8 +64,17 @@ extern int mpt_queue_crop(MPT_STRUCT(queue) *queue, size_t pos, size_t len)
 	
 	/* move data over segments */
 	if (high) {
-		uint8_t *src = ((uint8_t *) queue->base) + len - low;
-		if (low <= post) {
+		uint8_t *src;
+		/* removed range ends in lower part, close gap there first */
+		if (len < low) {
+			size_t keep = low - len;
+			(void) memmove(base, base + len, keep);
+			base += keep;
+			post -= keep;
+			low = len;
+		}
+		src = ((uint8_t *) queue->base) + len - low;
+		if (post <= low) {
 			memcpy(base, src, post);
 			ret = 1;
 		}
